@@ -131,6 +131,29 @@ theorem keytag_agrees_with_library (dec : Bytes → Bytes × Bool) (chunk : Nat)
       simp only [h2, Bool.not_true, Bool.false_eq_true, if_false, hsmall, Option.some.injEq] at hlib
       rw [← hlib, hdec]
 
+/-- **The base64 facts hold for the decoder model.** For `b64Decode` — the
+executable model of `encoding/base64` that every run compares with the real
+decoder op by op (`b64 dec`) — the three `B64Laws` are theorems: a successful
+decode yields three octets per four non-CR/LF characters less padding, and
+whenever the chunk loop of `KeyTag` did not fall back, one decode of the whole
+text succeeds and equals the concatenated chunk decodes (a chunk that decodes
+to its full size holds nothing but alphabet characters, so group boundaries
+are preserved). -/
+theorem b64_laws_hold (chunk : Nat) (h4 : chunk % 4 = 0) (hpos : 0 < chunk) : B64Laws b64Decode chunk where
+  chunks_agree := fun pk sum s h => chunks_agree_b64 chunk h4 hpos (pk.length + 1) pk sum s (by omega) h
+  len_le := b64_len_le
+  len_ge := b64_len_ge
+
+/-- **`KeyTag` = the library's tag, no base64 hypothesis left** (all
+algorithms but RSAMD5): with the tree's chunk size and the model decoder,
+whatever `DNSKEY.KeyTag` answers `KeyTag` answers. -/
+theorem keytag_agrees_with_library_b64 (flags proto alg : Nat) (hf : flags < 65536) (hp : proto < 256) (ha : alg < 256)
+    (halg : alg ≠ 1) (pk : Bytes) (t : Nat) (hlib : libKeyTag b64Decode flags proto alg pk = some t) :
+    keyTag b64Decode SdnsVerif.Gen.C14.key_tag_chunk 5456 t flags proto alg pk = t :=
+  keytag_agrees_with_library b64Decode _ (b64_laws_hold _ (by decide) (by decide)) (by decide) flags proto alg hf hp ha halg pk t hlib
+
+example : keyTag b64Decode 256 5456 0 257 3 8 [65, 81, 73, 68] = rfcKeyTag (keyRdata 257 3 8 [1, 2, 3]) := by decide
+
 /-- **RSAMD5 tag, by definition and total.** `rsamd5KeyTag` is the two octets
 below the last one of the octets it decoded (RFC 4034 App. B.1, erratum 193)
 and zero when there are fewer than three — in particular on the two-octet
@@ -316,6 +339,72 @@ example : verifyDS (fun d => d.dt == 2) (fun _ _ _ => true) 100 [⟨257, 3, 13, 
     [⟨[46], 1, 7, 13, 3, [97, 98]⟩] = (true, false) := by decide
 example : verifyDS (fun d => d.dt == 2) (fun _ _ _ => true) 100 [⟨257, 3, 13, 1, [46], [65], 7⟩]
     [⟨[46], 1, 7, 13, 2, [97, 98]⟩] = (false, true) := by decide
+
+/-- **Anchored keys are authenticated zone keys.** A key
+`VerifyDSAnchoredWithWork` returns is an offered key for which some DS of a
+supported digest type and algorithm names it — same key tag, **same
+algorithm**, class and owner, protocol 3, zone flag, not oversized — and
+`dsDigestMatches` under that DS's decodable digest; and the set is accepted
+exactly when at least one key is anchored. -/
+theorem anchored_key_iff (sup : DSRec → Bool) (dmatch : DKey → Nat → Bytes → Bool) (limit : Nat) (keys : List DKey)
+    (dss : List DSRec) (k : DKey) :
+    k ∈ anchoredKeys sup dmatch limit keys dss ↔
+      k ∈ keys ∧ ∃ d ∈ dss, sup d = true ∧ ∃ want, hexDecode d.digest = some want ∧ want ≠ [] ∧
+        usableDSCandidate limit d k = true ∧ dmatch k d.dt want = true := by
+  unfold anchoredKeys
+  rw [List.mem_filter, List.any_eq_true]
+  constructor
+  · rintro ⟨hk, d, hd, h⟩
+    refine ⟨hk, d, hd, ?_⟩
+    cases hx : hexDecode d.digest with
+    | none => simp [hx] at h
+    | some want =>
+      simp only [hx, Bool.and_eq_true, Bool.not_eq_true', List.isEmpty_eq_false_iff] at h
+      exact ⟨h.1, want, rfl, h.2.1.1, h.2.1.2, h.2.2⟩
+  · rintro ⟨hk, d, hd, hs, want, hx, hne, hu, hm⟩
+    refine ⟨hk, d, hd, ?_⟩
+    simp [hx, hs, hne, hu, hm]
+
+theorem verifyds_ok_iff_anchored (sup : DSRec → Bool) (dmatch : DKey → Nat → Bytes → Bool) (limit : Nat)
+    (keys : List DKey) (dss : List DSRec) :
+    (verifyDS sup dmatch limit keys dss).2 = true ↔ anchoredKeys sup dmatch limit keys dss ≠ [] := by
+  rw [verifyds_ok_iff]
+  constructor
+  · rintro ⟨d, hd, ha⟩
+    unfold dsAuthenticates at ha
+    simp only [Bool.and_eq_true] at ha
+    cases hx : hexDecode d.digest with
+    | none => simp [hx] at ha
+    | some want =>
+      simp only [hx, Bool.and_eq_true, Bool.not_eq_true', List.isEmpty_eq_false_iff, List.any_eq_true, List.mem_filter] at ha
+      obtain ⟨hs, hne, k, ⟨hk, hu⟩, hm⟩ := ha
+      have : k ∈ anchoredKeys sup dmatch limit keys dss :=
+        (anchored_key_iff sup dmatch limit keys dss k).mpr ⟨hk, d, hd, hs, want, hx, hne, hu, hm⟩
+      intro hnil; rw [hnil] at this; cases this
+  · intro hne
+    cases ha : anchoredKeys sup dmatch limit keys dss with
+    | nil => exact absurd ha hne
+    | cons k _ =>
+      have hk : k ∈ anchoredKeys sup dmatch limit keys dss := by rw [ha]; simp
+      obtain ⟨hk', d, hd, hs, want, hx, hwne, hu, hm⟩ := (anchored_key_iff sup dmatch limit keys dss k).mp hk
+      refine ⟨d, hd, ?_⟩
+      unfold dsAuthenticates
+      simp only [hs, hx, Bool.true_and, Bool.and_eq_true, Bool.not_eq_true', List.isEmpty_eq_false_iff, List.any_eq_true,
+        List.mem_filter]
+      exact ⟨hwne, k, ⟨hk', hu⟩, hm⟩
+
+/-- the algorithm a DS names is compared with the key's own. -/
+theorem ds_candidate_same_algorithm (limit : Nat) (d : DSRec) (k : DKey) (h : usableDSCandidate limit d k = true) :
+    k.alg = d.alg ∧ k.tag = d.keyTag ∧ k.cls = d.cls ∧ k.proto = 3 ∧ k.flags / 256 % 2 = 1 := by
+  unfold usableDSCandidate at h
+  simp only [Bool.and_eq_true, beq_iff_eq] at h
+  exact ⟨h.1.1.1.1.2, h.1.1.1.1.1.2, h.1.1.1.2, h.1.2, h.2⟩
+
+-- a DS naming algorithm 8 does not anchor an algorithm-13 key with the right digest
+example : anchoredKeys (fun _ => true) (fun _ _ _ => true) 100 [⟨257, 3, 13, 1, [46], [65], 7⟩]
+    [⟨[46], 1, 7, 8, 2, [97, 98]⟩] = [] := by decide
+example : anchoredKeys (fun _ => true) (fun _ _ _ => true) 100 [⟨257, 3, 13, 1, [46], [65], 7⟩]
+    [⟨[46], 1, 7, 13, 2, [97, 98]⟩] = [⟨257, 3, 13, 1, [46], [65], 7⟩] := by decide
 
 /-! ## RSA -/
 
@@ -635,6 +724,145 @@ example : signatureBinding
     { tag := 7, alg := 15, cls := 1, labels := 1, typ := 1, signer := [120, 97, 109, 112, 108, 101, 46],
       name := [101, 120, 97, 109, 112, 108, 101, 46] }
     [{ cls := 1, typ := 1, name := [101, 120, 97, 109, 112, 108, 101, 46] }] = Verdict.missingSigned := by decide
+
+/-! ## verifySignature, cryptoVerify, verifyOneSig, VerifyRRSIG -/
+
+/-- **`verifySignature` accepts exactly** when the binding preflight passes,
+the signed data can be built (no `*..` owner), the signature text decodes, and
+the algorithm's verifier accepts: for RSASHA1, RSASHA1-NSEC3, RSASHA256, RSASHA512 `verifyRSASignature`
+(see `verify_rsa_ok_iff`, `rsa_raw_iff_math`), for ECDSA P-256/P-384 and
+Ed25519 a key of exactly 64/96/32 octets, a signature of exactly 64/96/64 octets
+and the curve arithmetic (an oracle) saying yes. Any other algorithm number is
+refused. -/
+theorem verify_signature_ok_iff (std : Nat → Nat → Bytes → Bytes → Bytes → Bool) (dec : Bytes → Bytes × Bool) (L : RSALimits)
+    (tagOf : VKey → Nat) (orc : SigOracle) (k : VKey) (sig : VSig) (set : List VRec) :
+    verifySignature std dec L tagOf orc k sig set = Verdict.ok ↔
+      signatureBinding (bkeyOf tagOf k) (bsigOf sig) (hdrsOf set) = Verdict.ok ∧
+      (∃ r0 t, set = r0 :: t ∧
+        (signedData sig.typ r0.cls sig.alg sig.labels sig.origTTL sig.exp sig.inc sig.tag orc.signerWire
+          r0.ownerLabels (set.map (·.canonRd))).isSome = true) ∧
+      (dec sig.sigText).2 = true ∧
+      ((rsaAlg sig.alg ∧ verifyRSA std dec L sig.alg k.pk orc.hashed (dec sig.sigText).1 = Verdict.ok) ∨
+       (curveAlg sig.alg ∧ (dec k.pk).2 = true ∧ (dec k.pk).1.length = curveKeyLen sig.alg ∧
+          (dec sig.sigText).1.length = curveSigLen sig.alg ∧ orc.curve = some true)) := by
+  rw [verifySignature_ok_iff, verify_curve_ok_iff]
+
+/-- **Never wider than the library's preflight**: whatever `verifySignature`
+accepts passed a binding the library's `RRSIG.Verify` preflight passes too
+(fully qualified key owner, fewer than 256 owner labels). -/
+theorem verify_signature_within_library_preflight (std : Nat → Nat → Bytes → Bytes → Bytes → Bool)
+    (dec : Bytes → Bytes × Bool) (L : RSALimits) (tagOf : VKey → Nat) (orc : SigOracle) (k : VKey) (sig : VSig)
+    (set : List VRec) (hfq : isFqdn k.name = true) (hlab : ∀ h0 ∈ (hdrsOf set).head?, countLabel h0.name < 256)
+    (h : verifySignature std dec L tagOf orc k sig set = Verdict.ok) :
+    libBinding (bkeyOf tagOf k) (tagOf k) (bsigOf sig) (hdrsOf set) = true :=
+  binding_stricter_than_library (bkeyOf tagOf k) (bsigOf sig) (hdrsOf set) hfq hlab
+    ((verifySignature_ok_iff std dec L tagOf orc k sig set).mp h).1
+
+/-- a wrong-size curve key or signature is never accepted, whatever the curve arithmetic would say. -/
+theorem curve_widths_enforced (dec : Bytes → Bytes × Bool) (alg : Nat) (curve : Option Bool) (pk sig : Bytes)
+    (h : (dec pk).1.length ≠ curveKeyLen alg ∨ sig.length ≠ curveSigLen alg) :
+    verifyCurve dec alg curve pk sig ≠ Verdict.ok := by
+  intro hok
+  have := (verify_curve_ok_iff dec alg curve pk sig).mp hok
+  rcases h with h | h
+  · exact h this.2.1
+  · exact h this.2.2.1
+
+/-- **`cryptoVerify`**: the own verifier for the algorithms it implements, the library otherwise. -/
+theorem crypto_verify_ok_iff (std : Nat → Nat → Bytes → Bytes → Bytes → Bool) (dec : Bytes → Bytes × Bool) (L : RSALimits)
+    (tagOf : VKey → Nat) (libOK : Bool) (orc : SigOracle) (k : VKey) (sig : VSig) (set : List VRec) :
+    cryptoVerify std dec L tagOf libOK orc k sig set = Verdict.ok ↔
+      (ownAlg k.alg = true ∧ verifySignature std dec L tagOf orc k sig set = Verdict.ok) ∨
+      (ownAlg k.alg = false ∧ libOK = true) :=
+  cryptoVerify_ok_iff std dec L tagOf libOK orc k sig set
+
+/-- **`verifyOneSig` succeeds exactly** when the signature is inside its
+validity period, of a supported algorithm, matches the RRset (class, type,
+label count, owner, owner inside the signer's zone on a label boundary), and
+some offered key is a usable candidate for it — same tag, algorithm, class,
+owner = signer, protocol 3, zone flag — under which the cryptographic check
+passes. -/
+theorem verify_one_sig_ok_iff (cv : VKey → VSig → List VRec → Verdict) (inPeriod : VSig → Bool) (supAlg : Nat → Bool)
+    (tagOf : VKey → Nat) (keys : List VKey) (set : List VRec) (sig : VSig) :
+    verifyOneSig cv inPeriod supAlg tagOf keys set sig = true ↔
+      inPeriod sig = true ∧ supAlg sig.alg = true ∧ signatureMatchesRRset sig set = true ∧
+      ∃ k ∈ keys, usableSignatureCandidate tagOf sig k = true ∧ cv k sig set = Verdict.ok :=
+  verifyOneSig_iff cv inPeriod supAlg tagOf keys set sig
+
+/-- **`VerifyRRSIG` succeeds exactly** when keys were offered, no answer
+record lies outside the signer zone, and every RRset that has to be signed
+(answer records; authority records other than NS inside the zone) is a proper
+RRset covered by a signature filed under its owner, type and class, inside the
+zone, for which `verifyOneSig` succeeds — or there is nothing to sign. -/
+theorem verify_rrsig_ok_iff (oneSig : List VRec → VSig → Bool) (nKeys : Nat) (zone : Bytes) (m : VMsg) :
+    verifyRRSIG oneSig nKeys zone m = true ↔
+      nKeys ≠ 0 ∧ (∀ r ∈ m.answer, nameInZone (lower r.name) (lower (fqdn zone)) = true) ∧
+      (collected (lower (fqdn zone)) m = [] ∨
+        (m.sigs ≠ [] ∧ ∀ r ∈ collected (lower (fqdn zone)) m,
+          isRRset (hdrsOf (groupOf (lower (fqdn zone)) m r)) = true ∧
+          ∃ s ∈ m.sigs, nameInZone (lower s.name) (lower (fqdn zone)) = true ∧ sigKey s = rrKey r ∧
+            oneSig (groupOf (lower (fqdn zone)) m r) s = true)) :=
+  verifyRRSIG_iff oneSig nKeys zone m
+
+/-- **Only authenticated data.** If `VerifyRRSIG` says yes then every answer
+record lies in the signer zone and its RRset carries a signature that is in
+its validity period, of a supported algorithm, and passes the cryptographic
+check under an offered zone key (protocol 3, zone flag) named by the
+signature's tag, algorithm, class and signer. -/
+theorem verify_rrsig_every_answer_authenticated (cv : VKey → VSig → List VRec → Verdict) (inPeriod : VSig → Bool)
+    (supAlg : Nat → Bool) (tagOf : VKey → Nat) (keys : List VKey) (zone : Bytes) (m : VMsg)
+    (h : verifyRRSIG (verifyOneSig cv inPeriod supAlg tagOf keys) keys.length zone m = true) :
+    ∀ r ∈ m.answer, nameInZone (lower r.name) (lower (fqdn zone)) = true ∧
+      ∃ s ∈ m.sigs, ∃ k ∈ keys, sigKey s = rrKey r ∧ inPeriod s = true ∧ supAlg s.alg = true ∧
+        usableSignatureCandidate tagOf s k = true ∧ cv k s (groupOf (lower (fqdn zone)) m r) = Verdict.ok := by
+  intro r hr
+  obtain ⟨_, hzone, hrest⟩ := (verifyRRSIG_iff _ _ _ _).mp h
+  refine ⟨hzone r hr, ?_⟩
+  have hmem : r ∈ collected (lower (fqdn zone)) m := by unfold collected; exact List.mem_append_left _ hr
+  rcases hrest with hnil | ⟨_, hall⟩
+  · rw [hnil] at hmem; cases hmem
+  · obtain ⟨_, s, hs, _, hkey, hone⟩ := hall r hmem
+    obtain ⟨hp, ha, _, k, hk, hu, hcv⟩ := (verifyOneSig_iff _ _ _ _ _ _ _).mp hone
+    exact ⟨s, hs, k, hk, hkey, hp, ha, hu, hcv⟩
+
+/-- a usable candidate is a zone key the signature names. -/
+theorem usable_candidate_is_named_zone_key (tagOf : VKey → Nat) (sig : VSig) (k : VKey)
+    (h : usableSignatureCandidate tagOf sig k = true) :
+    tagOf k = sig.tag ∧ k.alg = sig.alg ∧ k.cls = sig.cls ∧ equalFold k.name sig.signer = true ∧ k.proto = 3 ∧
+      k.flags / 256 % 2 = 1 := by
+  unfold usableSignatureCandidate at h
+  simp only [Bool.and_eq_true, beq_iff_eq] at h
+  exact ⟨h.1.1.1.1.1, h.1.1.1.1.2, h.1.1.1.2, h.1.1.2, h.1.2, h.2⟩
+
+-- non-vacuity: one A RRset at "a." signed by "." under an Ed25519 zone key; the curve oracle says yes
+example :
+    let k : VKey := ⟨256, 3, 15, 1, [46], List.replicate 32 7⟩
+    let s : VSig := ⟨1, 15, 1, 60, 2, 1, 9, 1, [46], [97, 46], List.replicate 64 1⟩
+    let r : VRec := ⟨[97, 46], 1, 1, [[97]], [1, 2, 3, 4]⟩
+    let cv := fun k s set => cryptoVerify (fun _ _ _ _ _ => false) (fun b => (b, true)) ⟨1024, 4096, 64⟩ (fun _ => 9) false
+      { curve := some true } k s set
+    verifyRRSIG (verifyOneSig cv (fun _ => true) (fun a => a == 15) (fun _ => 9) [k]) 1 [46]
+      ⟨[r], [], [s]⟩ = true := by decide
+-- the same message with a 31-octet key is refused
+example :
+    let k : VKey := ⟨256, 3, 15, 1, [46], List.replicate 31 7⟩
+    let s : VSig := ⟨1, 15, 1, 60, 2, 1, 9, 1, [46], [97, 46], List.replicate 64 1⟩
+    let r : VRec := ⟨[97, 46], 1, 1, [[97]], [1, 2, 3, 4]⟩
+    let cv := fun k s set => cryptoVerify (fun _ _ _ _ _ => false) (fun b => (b, true)) ⟨1024, 4096, 64⟩ (fun _ => 9) false
+      { curve := some true } k s set
+    verifyRRSIG (verifyOneSig cv (fun _ => true) (fun a => a == 15) (fun _ => 9) [k]) 1 [46]
+      ⟨[r], [], [s]⟩ = false := by decide
+
+/-- `canonicalizeRdataNames`, evaluated over every record type of the library
+with a domain name in its RDATA: exactly the RFC 4034 §6.2 list as amended by
+RFC 6840 §5.1 is case-folded (NSEC, RRSIG, and the newer name-bearing types are
+signed as published), and a folded type has all its names folded. Equality,
+not inclusion: folding more breaks valid signatures, folding less too. -/
+theorem rdata_fold_table_is_rfc6840 :
+    SdnsVerif.Gen.C14.rdata_fold_any = [2, 3, 4, 5, 6, 7, 8, 9, 12, 14, 15, 17, 18, 21, 24, 26, 33, 35, 36, 39] ∧
+      SdnsVerif.Gen.C14.rdata_fold_all = SdnsVerif.Gen.C14.rdata_fold_any ∧
+      (∀ t ∈ SdnsVerif.Gen.C14.rdata_fold_any, t ∈ SdnsVerif.Gen.C14.rdata_name_types) ∧
+      47 ∈ SdnsVerif.Gen.C14.rdata_name_types := by decide
 
 /-! ## facts regenerated from the tree (one-directional side conditions) -/
 
